@@ -221,7 +221,7 @@ static int64_t child_write(Kernel *k, Proc *p, int fd, int64_t want, bool *fatal
 static int64_t child_read(Kernel *k, Proc *p, int64_t max, bool *eof) {
   *eof = false;
   FdEnt *e = k->fdent(p, 0);
-  if (!e || (e->ofd->acc & O_ACCMODE) == O_WRONLY) { *eof = true; return 0; }
+  if (!e || (e->ofd->acc & O_ACCMODE) == O_WRONLY) { *eof = true; p->in_gone = true; return 0; }  // the child closed its own stdin
   OFD *o = e->ofd;
   if (o->kind != OFD::PIPE_R) { *eof = true; return 0; }
   Pipe *pp = o->pipe;
@@ -294,6 +294,26 @@ void Kernel::child_step(Proc *p) {
       break;
     }
     case Step::CLOSE: fd_close(p, s.fd); p->pc++; break;
+    case Step::SPAWN: {
+      // a grandchild of the caller (a background job of the program): not the caller's child, never writes, holds the
+      // chosen standard descriptors - possibly the far ends of the caller's pipes - open until it ends
+      Proc *g = proc_new(p->pid);
+      g->handle = -1;
+      g->cwd = p->cwd;
+      for (int fd = 0; fd < 3; fd++) {
+        FdEnt *e = (s.fd & (1 << fd)) ? fdent(p, fd) : nullptr;
+        if (e) fd_install(g, fd, e->ofd, false, e->owner);
+      }
+      ChildSpec *cs = new ChildSpec();
+      cs->script.push_back(Step{ Step::SLEEP, 0, s.n, 0 });
+      cs->script.push_back(Step{ Step::EXIT, 0, 0, 0 });
+      cs->term = ChildSpec::IGNORE;
+      dyn_specs.push_back(cs);
+      g->spec = cs;
+      n_descendants++;
+      p->pc++;
+      break;
+    }
     case Step::EXIT: child_die(p, false, (int) s.n); break;
     case Step::RAISE: child_die(p, true, (int) s.n); break;
   }
@@ -301,12 +321,17 @@ void Kernel::child_step(Proc *p) {
 
 void Kernel::child_die(Proc *p, bool by_sig, int v) {
   if (p->st != Proc::RUNNING) return;
+  if (by_sig && ((v & 0x7f) == 0 || (v & 0x7f) == 0x7f)) v = SIGKILL;  // 0 and 0x7f are not terminating signals (0x7f encodes "stopped")
   p->st = Proc::DYING;
   p->dying_ns = now_ns;
   p->death_by_sig = by_sig;
-  p->death_sig = by_sig ? v : 0;
+  p->death_sig = by_sig ? (v & 0x7f) : 0;
   p->death_code = by_sig ? 0 : (v & 0xff);
   p->wstatus = by_sig ? (v & 0x7f) : ((v & 0xff) << 8);
+  if (by_sig && w.core_dumps) {
+    static const int core_sigs[] = { 3, 4, 5, 6, 7, 8, 11, 24, 25, 31 };  // QUIT ILL TRAP ABRT BUS FPE SEGV XCPU XFSZ SYS
+    for (int cs : core_sigs) if (cs == (v & 0x7f)) p->wstatus |= 0x80;
+  }
   for (size_t fd = 0; fd < p->fds.size(); fd++) {
     if (!p->fds[fd].ofd) continue;
     OFD *o = p->fds[fd].ofd;
@@ -324,6 +349,7 @@ void Kernel::child_zombify(Proc *p) {
   if (p->st != Proc::DYING) return;
   p->st = Proc::ZOMBIE;
   p->zombie_ns = now_ns;
+  if (!p->is_caller && p->ppid != caller->pid) { p->st = Proc::REAPED; p->reaped_ns = now_ns; by_pid.erase(p->pid); }  // somebody else's child: reaped by its own parent or init
   Thread *sv = cur; cur = nullptr;
   logrec(K_kern, 2 /* zombie */, p->pid, p->wstatus, 0, 0);
   cur = sv;
@@ -431,6 +457,7 @@ void child_phase_end_forkmode() {
   img->umask_ = c->umask_;
   memcpy(img->disp, c->disp, sizeof img->disp);
   img->t_ns = K->now_ns;
+  for (char **e = environ; e && *e; e++) img->envp.push_back(*e);  // what the forked copy of the caller continues with
   for (size_t fd = 0; fd < c->fds.size(); fd++) {
     FdEnt &e = c->fds[fd];
     if (!e.ofd) continue;
